@@ -105,9 +105,30 @@ package sqlcrud
 //@   props C05
 //@   nosafety
 //@   modifies *
+//@   -- the Insert statement of a link table: table, column list, placeholder list and values are the aligned lists
+//@   -- of newColumnsCode (so: as many $n as values, numbered 1..n, columns in the order of the values)
+//@   callverb fmt.Sprintf "INSERT INTO %s (" sqlTableName
+//@   callverb fmt.Sprintf "( %s ) VALUES (" cols.sqlColumnNames
+//@   callverb fmt.Sprintf ") VALUES ( %s );" cols.sqlPlaceholders
+//@   callverb fmt.Sprintf "); `,%s)" cols.goValueFields
 //@   loop ta.ForeignKeys().1 index n
 //@   loop ta.ForeignKeys().1 coll fks
 //@   loop ta.ForeignKeys().1 invariant len(foreignKeyFields) == n && len(foreignKeyComps) == n && len(foreignKeyAccess) == n
 //@   loop ta.ForeignKeys().1 invariant forall k int :: 0 <= k && k < n ==> foreignKeyFields[k] == fks[k].F.Field.Name() && foreignKeyAccess[k] == fmt.Sprintf("item.%s", fks[k].F.Field.Name())
 //@   loop ta.ForeignKeys().1 invariant forall k int :: 0 <= k && k < n ==> foreignKeyComps[k] == ite(fks[k].IsNullable(), fmt.Sprintf("((%[1]s IS NULL AND $%[2]d IS NULL) OR %[1]s = $%[2]d)", fks[k].F.Field.Name(), k+1), fmt.Sprintf("%s = $%d", fks[k].F.Field.Name(), k+1))
 //@   loop ta.ForeignKeys().1 invariant (isnil(foreignKeyFields) || allocated(foreignKeyFields)) && (isnil(foreignKeyComps) || allocated(foreignKeyComps)) && (isnil(foreignKeyAccess) || allocated(foreignKeyAccess)) && (isnil(fks) || allocated(fks))
+
+// primary tables: Insert and Update use the aligned no-primary lists of newColumnsCode, the id placeholder of Update
+// is the next free one, and the by-unique-key select compares the key's own column
+//@ func context.generatePrimaryTable
+//@   props C05
+//@   nosafety
+//@   requires forall i int :: 0 <= i && i < len(ta.Columns) ==> ta.Columns[i].Field.Field != nil
+//@   modifies *
+//@   callverb fmt.Sprintf "INSERT INTO %s (" sqlTableName
+//@   callverb fmt.Sprintf "( %s ) VALUES (" cols.sqlColumnNamesNoPrimary
+//@   callverb fmt.Sprintf ") VALUES ( %s ) RETURNING" cols.sqlPlaceholdersNoPrimary
+//@   callverb fmt.Sprintf "SET ( %s ) = (" cols.sqlColumnNamesNoPrimary
+//@   callverb fmt.Sprintf ") = ( %s ) WHERE id" cols.sqlPlaceholdersNoPrimary
+//@   callverb fmt.Sprintf "WHERE id = $%s RETURNING" cols.columnsCount
+//@   callverb fmt.Sprintf "WHERE %s = $1" columnName
